@@ -17,6 +17,9 @@ use crate::aplang::ApLang;
 use crate::arguments::{CommandLine, DebugMode};
 use interpreter::errors::Reports;
 
+#[cfg(feature = "verif")]
+#[macro_use]
+mod verif;
 mod aplang;
 mod arguments;
 mod interpreter;
